@@ -12,7 +12,7 @@ impl<K: Eq, V> HashMap<K, V> {
     pub fn len(&self) -> usize { self.n }
     fn pos<Q: ?Sized + Eq>(&self, k: &Q) -> Option<usize> where K: Borrow<Q> {
         let mut i = 0;
-        while i < CAP { if i < self.n { if let Some((kk, _)) = &self.items[i] { if kk.borrow() == k { return Some(i); } } } i += 1; }
+        while i < self.n { if let Some((kk, _)) = &self.items[i] { if kk.borrow() == k { return Some(i); } } i += 1; }
         None
     }
     pub fn get<Q: ?Sized + Eq>(&self, k: &Q) -> Option<&V> where K: Borrow<Q> {
@@ -56,7 +56,7 @@ impl<K: Eq, V: PartialEq> PartialEq for HashMap<K, V> {
     fn eq(&self, o: &Self) -> bool {
         if self.len() != o.len() { return false; }
         let mut i = 0;
-        while i < CAP { if i < self.n { if let Some((k, v)) = &self.items[i] { if o.get(k) != Some(v) { return false; } } } i += 1; }
+        while i < self.n { if let Some((k, v)) = &self.items[i] { if o.get(k) != Some(v) { return false; } } i += 1; }
         true
     }
 }
